@@ -4,10 +4,10 @@ import (
 	"fmt"
 	"runtime/debug"
 
-	"verifharness/engine"
 	"math/big"
 	"sort"
 	"strings"
+	"verifharness/engine"
 
 	"github.com/elk-language/elk/value"
 	"github.com/elk-language/elk/vm"
@@ -311,14 +311,14 @@ type mop struct {
 }
 
 type mapSys struct {
-	k        *mapKind
-	initCap  int
-	capMax   int
-	ops      []mop
-	names    []string
-	fixed    []model
-	nrep     map[string]int
-	shadow   *mapSys // HashRecordOfValue delegates to HashMapOfValue: used to give a shared defect one signature
+	k       *mapKind
+	initCap int
+	capMax  int
+	ops     []mop
+	names   []string
+	fixed   []model
+	nrep    map[string]int
+	shadow  *mapSys // HashRecordOfValue delegates to HashMapOfValue: used to give a shared defect one signature
 }
 
 func newMapSys(k *mapKind, initCap, capMax int, thorough bool) *mapSys {
